@@ -10,6 +10,9 @@ import GocoinV.Proofs.C12Inv
 import GocoinV.Proofs.C12Rbf
 import GocoinV.Proofs.C12Sort
 import GocoinV.Proofs.C12Compose
+import GocoinV.Proofs.C12SortRun
+import GocoinV.Proofs.C12Chain
+import GocoinV.Proofs.C12RejAdm
 namespace GocoinV.Props.C12
 open GocoinV.Mempool
 
@@ -188,24 +191,30 @@ theorem rbf_listing_valid (K : Keys) (s : State) (l : List Nat) (pks : List Pkg)
     plus the structural part (`pool_inv_struct`).
     Hypotheses. `Univ2`, about the set `W` of transactions of the history only: `Univ` (above), BIDX / UIdx do not
     collide on the txids in play, no transaction of the history has an output in `u0`, `ν` gives the output values.
-    `AdmRun`, about the chain side only (it reads nothing but the confirmed set and the undo stack of the state each
-    `block` / `undo` operation is applied to): every connected block satisfies `ConnectSound` (what C04's
-    `connect_sound` establishes: the resulting confirmed set is consistent — inputs of connected transactions are
-    spent and name confirmed txids, unspent outputs belong to confirmed txids with the right values — unspent outputs
-    not spent by the block stay, outputs created and not spent by the block are unspent, the block's txids are new
-    and pairwise different) and every undo satisfies `UndoCommitTxs` (what C06's `undo_commitTxs` establishes: the
-    confirmed set is consistent again, the block's outputs are gone, everything else that was unspent stays).
-    -- OPEN (d): consistency of the reject ring / WaitingForInputs / RejectedSpentOutputs indexes over all histories is
-    not proved (checked by the harness against the real pool and MempoolCheck after every operation only).
-    -- OPEN: `ConnectSound` / `UndoCommitTxs` are hypotheses about the model's own chain simulation (connectUtxo /
-    disconnectUtxo); they are not derived here from a block-validity predicate on that simulation. -/
+    `ValidRun`, about the blocks of the history only (fourth pass; it reads nothing but the confirmed set and the undo
+    stack of the state each `block` operation is applied to): every connected block body is `BlockValid` = `BlockOK`
+    (every input unspent-confirmed or created earlier in the block, consumed once) ∧ its txids are new (not confirmed,
+    BIP30/34) ∧ pairwise different. Nothing is required of `undo` operations. The chain-side facts the pool needs
+    (`ConnectSound` / `UndoCommitTxs`, formerly hypotheses) are DERIVED for the model's own chain simulation
+    connectUtxo / disconnectUtxo from this predicate (`chain_sim_sound` below, Proofs/C12Chain*.lean). -/
 theorem pool_inv (K : Keys) (W : Tx → Prop) (rank : TxId → Nat) (u0 : UT) (ν : OutPoint → Nat)
     (U : Univ2 K W rank u0 ν) (cfg : Cfg) (h0 : Nat) (ops : List Op)
-    (hW : ∀ op ∈ ops, ∀ t ∈ op.txs, W t) (ha : AdmRun K u0 ν (genesis cfg u0 h0) ops)
+    (hW : ∀ op ∈ ops, ∀ t ∈ op.txs, W t) (hv : ValidRun K u0 (genesis cfg u0 h0) ops)
     (alive : (run K (genesis cfg u0 h0) ops).panicked = false) :
     PoolInv K ν (run K (genesis cfg u0 h0) ops) := by
+  have ha := admRun_genesis U cfg h0 ops hW hv
   have f := run_full U ops _ (full_genesis U cfg h0) hW ha
   exact PoolInv.of_good f.chain (f.good alive)
+
+/-- The model's chain simulation is sound for valid blocks (what `pool_inv` formerly assumed): from the chain-side history
+    invariant `ChainInv` (it implies `ChainOK`), connecting a `BlockValid` body yields `ConnectSound` and `ChainInv`
+    again; disconnecting the last block yields `UndoCommitTxs` and `ChainInv` again, with no hypothesis on the block. -/
+theorem chain_sim_sound (K : Keys) (W : Tx → Prop) (rank : TxId → Nat) (u0 : UT) (ν : OutPoint → Nat)
+    (U : Univ2 K W rank u0 ν) (s : State) (hc : ChainInv u0 ν s) :
+    (∀ h txs, BlockValid u0 s txs → (∀ t ∈ txs, W t) →
+      ConnectSound u0 ν s (connectUtxo s h txs) txs ∧ ChainInv u0 ν (connectUtxo s h txs)) ∧
+    (∀ s' txs, disconnectUtxo s = some (s', txs) → UndoCommitTxs u0 ν s s' txs ∧ ChainInv u0 ν s') :=
+  ⟨fun h txs hb hW => connect_sound_model U s h txs hc hb hW, fun s' txs hd => undo_sound_model s s' txs hc hd⟩
 
 /-- … and every single operation keeps the carried invariant (`Full` = structural invariant ∧ consistent chain side ∧
     the pool invariant whenever the process is alive), from any state, given the operation is admissible there. -/
@@ -214,28 +223,56 @@ theorem pool_inv_full_step (K : Keys) (W : Tx → Prop) (rank : TxId → Nat) (u
     (ha : AdmOp u0 ν s op) : Full K W u0 ν (step K s op) :=
   step_full U s op h hW ha
 
-/-- (e) THE COMPOSITION: in every state reached by an admissible history in which the process is alive, the block body
-    built from the listing of GetSortedMempoolRBF (`sortedRBF`: the sorted list merged with fee packages that pass
+/-- THE INVARIANT OF THE INCREMENTALLY MAINTAINED SORTED LIST over all histories (fourth pass). In every state reached
+    from the empty pool by ANY history of the modelled operations with valid blocks in which the process is alive, if the
+    BestT2S…WorstT2S list is not dirty (i.e. it is what GetSortedMempool returns without rebuilding) then `SortOK` holds:
+    the SortRank values strictly increase from BestT2S to WorstT2S and stay inside uint64 (hence no two list elements
+    share a SortRank, and findWorstParent's `>` finds the LAST flagged parent on the list); the list holds exactly the
+    keys of TransactionsToSend (no duplicates follow from the ranks); no element standing after a record is one of its
+    flagged (MemInputs) parents; no record is its own flagged parent.
+    The proof goes through AddToSort (findWorstParent by SortRank, insertDownFromHere, insertBefore, fixIndex with its
+    four cases, reindexDown incl. its overflow exit, reindexEverything, adjustSortIndexStep), DelFromSort,
+    buildSortedList and every operation that reaches them.
+    Hypothesis `nowrap`: the model's ghost flag `rankWrap` is clear. The flag is set, since the last rebuild of the list,
+    exactly where the Go code computes a SortRank without a guard and the computation left uint64 or met a step of 0:
+    the append at the end of insertDownFromHere (`WorstT2S.SortRank + sortIndexStep`, needs > 2^62/sortIndexStep ≈ 2.4
+    million consecutive appends without a rebuild), sortIndexStep = 0 or sortIndexStep/16 = 0 (more than 2^55 pooled
+    transactions), SORT_START + n·step ≥ 2^64 in reindexEverything / buildSortedList (impossible for the step
+    adjustSortIndexStep computes; not proved). These are outside every run the harness can make; they are not claimed. -/
+theorem sorted_list_inv (K : Keys) (W : Tx → Prop) (rank : TxId → Nat) (u0 : UT) (ν : OutPoint → Nat)
+    (U : Univ2 K W rank u0 ν) (cfg : Cfg) (h0 : Nat) (ops : List Op)
+    (hW : ∀ op ∈ ops, ∀ t ∈ op.txs, W t) (hv : ValidRun K u0 (genesis cfg u0 h0) ops)
+    (alive : (run K (genesis cfg u0 h0) ops).panicked = false)
+    (clean : (run K (genesis cfg u0 h0) ops).sortDirty = false)
+    (nowrap : (run K (genesis cfg u0 h0) ops).rankWrap = false) :
+    SortOK K (run K (genesis cfg u0 h0) ops) := by
+  have ha := admRun_genesis U cfg h0 ops hW hv
+  exact run_sort U ops _ (full_genesis U cfg h0) (sort_genesis K cfg u0 h0) hW ha alive clean nowrap
+
+/-- … and each single operation keeps it (with the carried pool invariant `Full`). -/
+theorem sorted_list_inv_step (K : Keys) (W : Tx → Prop) (rank : TxId → Nat) (u0 : UT) (ν : OutPoint → Nat)
+    (U : Univ2 K W rank u0 ν) (s : State) (op : Op) (h : Full K W u0 ν s) (hW : ∀ t ∈ op.txs, W t)
+    (ha : AdmOp u0 ν s op) (q : SortInvP K s) : SortInvP K (step K s op) :=
+  step_sort U s op h hW ha q
+
+/-- (e) THE COMPOSITION: in every state reached by a history with valid blocks in which the process is alive, the block
+    body built from the listing of GetSortedMempoolRBF (`sortedRBF`: the sorted list merged with fee packages that pass
     `pkgOK`) is accepted by the input-availability rules of commitTxs (`BlockOK` against the confirmed set of that
-    state): `pool_inv` + `sorted_complete` + `sorted_parents_first` + `rbf_listing_valid` supply exactly the four
-    hypotheses of `template_valid`.
-    `hsorted` concerns the incrementally maintained BestT2S…WorstT2S list only: when the list is dirty
-    (`sortDirty`, e.g. after every block, reload, or flag change) GetSortedMempool rebuilds it with
-    GetSortedMempoolSlow and the hypothesis is void.
-    -- OPEN: that AddToSort / DelFromSort keep the non-dirty list a duplicate-free, complete, parents-first listing
-    over all histories is not proved (the harness has the model check it on gocoin's list before every comparison). -/
+    state): `pool_inv` + `sorted_complete` + `sorted_parents_first` (dirty list: GetSortedMempoolSlow) or
+    `sorted_list_inv` (non-dirty list: the incrementally maintained one) + `rbf_listing_valid` supply exactly the four
+    hypotheses of `template_valid`. The former hypothesis `hsorted` about the non-dirty list is gone; what remains is
+    `nowrap` (see `sorted_list_inv`), needed only when the list is not dirty. -/
 theorem template_from_pool (K : Keys) (W : Tx → Prop) (rank : TxId → Nat) (u0 : UT) (ν : OutPoint → Nat)
     (U : Univ2 K W rank u0 ν) (cfg : Cfg) (h0 : Nat) (ops : List Op)
-    (hW : ∀ op ∈ ops, ∀ t ∈ op.txs, W t) (ha : AdmRun K u0 ν (genesis cfg u0 h0) ops)
+    (hW : ∀ op ∈ ops, ∀ t ∈ op.txs, W t) (hv : ValidRun K u0 (genesis cfg u0 h0) ops)
     (alive : (run K (genesis cfg u0 h0) ops).panicked = false) (pks : List Pkg)
     (hp : ∀ pk ∈ pks, pkgOK K (run K (genesis cfg u0 h0) ops) pk = true)
-    (hsorted : (run K (genesis cfg u0 h0) ops).sortDirty = false →
-      (run K (genesis cfg u0 h0) ops).sorted.Nodup ∧
-      pfKeys K (run K (genesis cfg u0 h0) ops) [] (run K (genesis cfg u0 h0) ops).sorted = true ∧
-      ∀ b t, (run K (genesis cfg u0 h0) ops).pool.get? b = some t → b ∈ (run K (genesis cfg u0 h0) ops).sorted) :
+    (nowrap : (run K (genesis cfg u0 h0) ops).sortDirty = false → (run K (genesis cfg u0 h0) ops).rankWrap = false) :
     BlockOK (fun o => ((run K (genesis cfg u0 h0) ops).utxo.get? o).isSome)
       ((recsOf (run K (genesis cfg u0 h0) ops) (sortedRBF K (run K (genesis cfg u0 h0) ops) pks)).map (·.tx)) := by
+  have ha := admRun_genesis U cfg h0 ops hW hv
   have f := run_full U ops _ (full_genesis U cfg h0) hW ha
+  have q := run_sort U ops _ (full_genesis U cfg h0) (sort_genesis K cfg u0 h0) hW ha
   generalize run K (genesis cfg u0 h0) ops = s at *
   have g := f.good alive
   -- the sorted list is a duplicate-free complete parents-first listing
@@ -247,11 +284,52 @@ theorem template_from_pool (K : Keys) (W : Tx → Prop) (rank : TxId → Nat) (u
       simp only [if_true]
       obtain ⟨l1, l2, l3⟩ := sortedSlow_listing U s g
       exact ⟨l1, (pfKeys_iff K s _ []).mpr l3, l2⟩
-    | false => simpa using hsorted hd
+    | false =>
+      simp only [Bool.false_eq_true, if_false]
+      exact sortOK_listing U s g (q alive hd (nowrap hd))
   obtain ⟨r1, _, r3⟩ := rbf_listing_valid K s (getSorted K s) pks hl.1 hl.2.1 hl.2.2 hp
   have pf := (pfKeys_iff K s _ []).mp r3
   exact template_valid K s (recsOf s (sortedRBF K s pks)) (listing_hnd s g _) (listing_hconf s g _ r1)
     (listing_hsp s g _) (listing_hpf s g _ pf)
+
+/-- blocks of valid histories carry pairwise different BIDX (txids of `W` are separated by BIDX) -/
+theorem blocksDistinct_of_valid (K : Keys) (W : Tx → Prop) (rank : TxId → Nat) (u0 : UT) (U : Univ K W rank) :
+    ∀ (ops : List Op) (s : State), (∀ op ∈ ops, ∀ t ∈ op.txs, W t) → ValidRun K u0 s ops → BlocksDistinct K ops := by
+  intro ops
+  induction ops with
+  | nil => intro s _ _ op hop; cases hop
+  | cons o r ih =>
+    intro s hW hv op hop h txs mf e
+    rcases List.mem_cons.mp hop with rfl | hop
+    · subst e
+      have hb : BlockValid u0 s txs := hv.1
+      have hWt : ∀ t ∈ txs, W t := fun t ht => hW _ List.mem_cons_self t (by simpa [Op.txs] using ht)
+      show ((txs.map fun t => K.bidx t.id)).Pairwise (· ≠ ·)
+      rw [List.pairwise_map]
+      refine List.Pairwise.imp_of_mem ?_ hb.2.2
+      intro a b ha hb' hne hk
+      exact hne (U.bidx_inj a b (hWt a ha) (hWt b hb') hk)
+    · exact ih (step K s o) (fun o' ho' => hW o' (List.mem_cons_of_mem _ ho')) hv.2 op hop h txs mf e
+
+/-- (d) THE REJECT INDEXES OVER ALL HISTORIES (fourth pass): in every state reached from the empty pool by any history
+    with valid blocks in which the process is alive, `RejInv` holds: TransactionsRejected has no duplicate key and is
+    keyed by the BIDX of its records; the TRIdxArray ring holds every rejected key exactly once and nothing else; a
+    record keeps its transaction iff reason ≥ 200, has Waiting4 iff reason = NO_TXOU, none without data;
+    RejectedSpentOutputs lists under each UIdx exactly (membership) the data-carrying records having an input with that
+    UIdx, no empty lists; WaitingForInputs lists under each BIDX exactly the records waiting for it, duplicate-free,
+    no empty lists, keyed by the BIDX of its TxID; nothing is both pooled and rejected. Consequently the reject-related
+    panic branches of the model (rejEvictOldest: ring slot without record; txAccepted: empty list / missing record /
+    record without data) are unreachable (`rejEvictOldest_panicked`, `txAcceptedAuxP_indep` in Proofs/C12RejPanic).
+    Extra hypothesis: the ring has at least 2 slots (with 1 slot, model and Go code alike evict in Add the record just
+    added and then index it). Not covered: multiplicities in RejectedSpentOutputs (membership only), equality of
+    Waiting4 with OneWaitingList.TxID beyond their BIDX, the byte counters / limitRejectedSizeIfNeeded (not modelled). -/
+theorem reject_index_inv (K : Keys) (W : Tx → Prop) (rank : TxId → Nat) (u0 : UT) (ν : OutPoint → Nat)
+    (U : Univ2 K W rank u0 ν) (cfg : Cfg) (h0 : Nat) (hcap : 2 ≤ cfg.ringCap) (ops : List Op)
+    (hW : ∀ op ∈ ops, ∀ t ∈ op.txs, W t) (hv : ValidRun K u0 (genesis cfg u0 h0) ops)
+    (alive : (run K (genesis cfg u0 h0) ops).panicked = false) :
+    RejInv K (run K (genesis cfg u0 h0) ops) :=
+  rejInv_all_histories U cfg h0 hcap ops hW (admRun_genesis U cfg h0 ops hW hv)
+    (blocksDistinct_of_valid K W rank u0 U.base ops _ hW hv) alive
 
 /-- Fee exactness in ℕ: when the input values of a pooled transaction do not overflow uint64 (always the case for
     real coins), Fee = Σ inputs − Σ outputs exactly. -/
@@ -368,7 +446,7 @@ example : PoolInv K3 ν3 (run K3 (genesis {} u3 0) ops3) := by
   · intro op ho t ht
     simp only [ops3, List.mem_cons, List.not_mem_nil, or_false] at ho
     rcases ho with rfl | rfl | rfl | rfl | rfl <;> simp [Op.txs] at ht <;> simp [W2, ht]
-  · simp [ops3, AdmRun, AdmOp]
+  · simp [ops3, ValidRun, ValidOp]
   · decide
 example : ((run K3 (genesis {} u3 0) ops3).pool.map (·.1)) = [8, 7] ∨ ((run K3 (genesis {} u3 0) ops3).pool.map (·.1)) = [7, 8] := by decide
 example : BlockOK (fun o => ((run K3 (genesis {} u3 0) ops3).utxo.get? o).isSome)
@@ -377,11 +455,39 @@ example : BlockOK (fun o => ((run K3 (genesis {} u3 0) ops3).utxo.get? o).isSome
   · intro op ho t ht
     simp only [ops3, List.mem_cons, List.not_mem_nil, or_false] at ho
     rcases ho with rfl | rfl | rfl | rfl | rfl <;> simp [Op.txs] at ht <;> simp [W2, ht]
-  · simp [ops3, AdmRun, AdmOp]
+  · simp [ops3, ValidRun, ValidOp]
   · decide
   · intro pk hpk; simp at hpk
-  · intro h; exact absurd h (by decide)
+  · intro _; decide
 example : (recsOf (run K3 (genesis {} u3 0) ops3) (sortedRBF K3 (run K3 (genesis {} u3 0) ops3) [])).map (·.tx.id) = [7, 8] := by
   decide
+
+/-- an incremental (non-dirty) list: the child txB is inserted below its parent txA by AddToSort -/
+def ops4 : List Op := [.tip 5, .submitNet txA false 0, .submitNet txB false 0]
+example : SortOK K3 (run K3 (genesis {} u3 0) ops4) := by
+  apply sorted_list_inv K3 W2 id u3 ν3 univ3 {} 0 ops4
+  · intro op ho t ht
+    simp only [ops4, List.mem_cons, List.not_mem_nil, or_false] at ho
+    rcases ho with rfl | rfl | rfl <;> simp [Op.txs] at ht <;> simp [W2, ht]
+  · simp [ops4, ValidRun, ValidOp]
+  · decide
+  · decide
+  · decide
+example : (run K3 (genesis {} u3 0) ops4).sorted = [7, 8] ∧ (run K3 (genesis {} u3 0) ops4).sortDirty = false := by decide
+example : RejInv K3 (run K3 (genesis {} u3 0) ops3) := by
+  apply reject_index_inv K3 W2 id u3 ν3 univ3 {} 0 (by decide) ops3
+  · intro op ho t ht
+    simp only [ops3, List.mem_cons, List.not_mem_nil, or_false] at ho
+    rcases ho with rfl | rfl | rfl | rfl | rfl <;> simp [Op.txs] at ht <;> simp [W2, ht]
+  · simp [ops3, ValidRun, ValidOp]
+  · decide
+example : ChainInv u3 ν3 (genesis {} u3 0) := chainInv_genesis univ3 {} 0
+example : BlockValid u3 (genesis {} u3 0) [txA, txB] := by
+  refine ⟨?_, ?_, ?_⟩
+  · simp [BlockOK, Tx.inOps, TxIn.op, txA, txB, u3, genesis, inU, AList.get?, Tx.creates]
+  · intro t ht
+    simp only [List.mem_cons, List.not_mem_nil, or_false] at ht
+    rcases ht with rfl | rfl <;> simp [Conf, genesis, u3, txA, txB, AList.get?]
+  · simp [txA, txB]
 
 end GocoinV.Props.C12
